@@ -23,6 +23,17 @@
     evaluated once for a generic iteration, `continue` / `break` end it; comprehensions over such an iterable give a tuple (filters decided
     by the configuration), others the generic element; `x.append(v)` extends a list held item by item; `with` blocks are evaluated;
   * `explore` evaluates a function once per combination of the atomic tests the configuration leaves open (`_ForkConfig`).
+  * (pass 3) a `raise` ends the evaluated path (`trace.raised`: such a combination returns nothing and is dropped by the rules); functions
+    defined inside a function and lambdas are closures that read the enclosing scope when called; `*seq` / `**{...}` arguments are expanded;
+    functools.partial, generator functions that only compute, `match` on literals, `try` (the path on which nothing raises), class-level
+    constants, np.s_[...] index objects, itertools.count() / range(n) columns of a zip, solve(a=..., b=...), dict.pop / get / del / `in` on a
+    dict held item by item, in-place updates of a whole array (`x *= f` is a store on the whole array) are understood; the option string a
+    configuration stands for can be iterated letter by letter (`Config.items_of`), `isdisjoint / issuperset / issubset / len` on it are decided;
+  * (pass 3) **nothing the evaluator does not follow may look like "nothing happened"**: a store through a value it does not know, a call
+    of a function of the package / a local function that is not followed, a call that may write into an array of the trace it is handed (every
+    callee that is not a known pure library function), a function handed to code that is not followed, `exec` & co., a computed callee, a
+    statement kind that is not lowered, a method that changes a held container in a way that is not modelled: each is recorded in
+    `trace.lost` / `trace.escaped` / `trace.undecided`; the rules then report an analysis error and never conclude that an array stayed zero.
 
 Nothing of pyyeti is imported or run.  `rewrite` maps the atoms of a value (used to erase partition indices for the formula rules)."""
 from __future__ import annotations
@@ -149,6 +160,7 @@ class Trace:
         self.escaped = []     # (node, function name, callee, identities): an array of the trace handed to code that was not followed
         self.closures = {}    # symbol name -> (FunctionDef | Lambda, defining evaluator)
         self.sobj = {}        # key of an index object np.s_[...] -> the subscript it was written with
+        self.unbound = []     # (node, function name, name): a name read on the evaluated path that nothing binds (NameError there)
 
     def tick(self):
         self.seq += 1
@@ -737,6 +749,8 @@ class PathEval(AutoEvaluator):
             return self.views[node.id]
         if isinstance(node, ast.Name) and node.id in self.buffers:
             return F.sym(self._ident(node.id))
+        if isinstance(node, ast.Name) and isinstance(node.ctx, ast.Load) and node.id not in self.env and hasattr(node, "lineno") and self._never_bound(node.id):
+            self.trace.unbound.append((node, getattr(self.fn, "name", "<lambda>"), node.id))
         if isinstance(node, ast.Lambda):
             return self._closure(node)
         if isinstance(node, (ast.Yield, ast.YieldFrom)):
@@ -902,6 +916,29 @@ class PathEval(AutoEvaluator):
                 return s
         return d
 
+    def _never_bound(self, name):
+        """no construct binds the name: not in the function (nor in the functions it is nested in), not at the top level of its module, and it
+        is not a builtin - reading it raises NameError.  (A name that is bound somewhere but not on this path is not reported here.)"""
+        import builtins
+        if hasattr(builtins, name) or name in ("__class__", "__name__", "__file__", "__doc__"):
+            return False
+        memo = self.ctx.__dict__.setdefault("_c02_bound", {})
+        scopes = [f for f in self.stack if f is not None] + [f for f in self._outer if f is not None]
+        for f in scopes:
+            k = id(f)
+            if k not in memo:
+                memo[k] = _binds(f, descend=True)
+            if memo[k] is None or name in memo[k]:
+                return False
+        if not self.rel:
+            return False
+        k = ("mod", self.rel)
+        if k not in memo:
+            memo[k] = _binds(self.ctx.src.mod(self.rel).tree, descend=False)
+        return memo[k] is not None and name not in memo[k]
+
+    _outer = ()
+
     def config_keys(self):
         return getattr(self.config, "names", ())
 
@@ -1048,7 +1085,8 @@ class PathEval(AutoEvaluator):
             # a new array: one identity, whoever fills it later; named after the local it is bound to first (`_assign`)
             self._record(name, node)
             i = self.trace.fresh("<array>")
-            self.trace.init[i] = F.const(0)
+            # (np.empty: whatever was in memory - not zeros)
+            self.trace.init[i] = F.sym("<uninitialised memory>") if name.rsplit(".", 1)[-1] in ("empty", "empty_like") else F.const(0)
             self.trace.created.add(i)
             return F.sym(i)
         if name in _STACKS and len(args) >= 1:
@@ -1340,6 +1378,7 @@ class PathEval(AutoEvaluator):
         if closure is not None:
             # a function defined inside another one reads the enclosing scope as it is when it is called; what it binds stays its own
             sub.rel, sub.module_consts = closure.rel, closure.module_consts
+            sub._outer = tuple(closure.stack) + tuple(closure._outer)
             bound = set(params) | set(kwonly)
             for k, v in closure.env.items():
                 if k not in bound:
@@ -1670,6 +1709,44 @@ class PathEval(AutoEvaluator):
 
 _LOWERED = (ast.Assign, ast.AnnAssign, ast.AugAssign, ast.If, ast.For, ast.While, ast.With, ast.Return, ast.Expr, ast.Raise, ast.Pass, ast.Assert,
             ast.Import, ast.ImportFrom, ast.FunctionDef, ast.Continue, ast.Break, ast.Delete, ast.Try)
+
+
+def _binds(tree, descend):
+    """names some construct of `tree` binds (assignment and loop targets, parameters, imports, def / class, `as`, global / nonlocal); with
+    `descend` the bodies of nested functions are included (a conservative superset), without it they are not (module top level).  None when a
+    star import makes the set unknowable."""
+    out = set()
+    todo = [tree]
+    while todo:
+        x = todo.pop()
+        for y in ast.iter_child_nodes(x):
+            if isinstance(y, (ast.FunctionDef, ast.AsyncFunctionDef, ast.ClassDef)):
+                out.add(y.name)
+                if not descend:
+                    continue
+            if isinstance(y, ast.Lambda) and not descend:
+                continue
+            todo.append(y)
+        if isinstance(x, ast.Name) and isinstance(x.ctx, (ast.Store, ast.Del)):
+            out.add(x.id)
+        elif isinstance(x, ast.arg):
+            out.add(x.arg)
+        elif isinstance(x, (ast.Import, ast.ImportFrom)):
+            for al in x.names:
+                if al.name == "*":
+                    return None
+                out.add((al.asname or al.name).split(".")[0])
+        elif isinstance(x, ast.ExceptHandler) and x.name:
+            out.add(x.name)
+        elif isinstance(x, (ast.Global, ast.Nonlocal)):
+            out.update(x.names)
+        elif isinstance(x, getattr(ast, "MatchAs", ())) and x.name:
+            out.add(x.name)
+        elif isinstance(x, getattr(ast, "MatchStar", ())) and x.name:
+            out.add(x.name)
+        elif isinstance(x, getattr(ast, "MatchMapping", ())) and x.rest:
+            out.add(x.rest)
+    return out
 
 
 def _lower_match(st):
